@@ -75,6 +75,7 @@ Definition ttest (d : Z) (x : tctx) (c : tcond) : option bool :=
   match c with
   | TNonEmpty => Some (match t_ds x with [] => false | _ => true end)
   | TDeadlineLtMin => match minl (t_ds x) with Some m => Some (d <? m) | None => None end
+  | TTimedOutNotActive => Some (negb (opt_in (t_tod x) (removelast (t_ds x))))      (* ... not in deadlines[:-1] *)
   | TCUnknown => None
   end.
 Fixpoint trun (fuel : nat) (d : Z) (x : tctx) (ss : list tstmt) : option tctx :=
